@@ -176,7 +176,7 @@ func gen(c *core.Ctx) error {
 		{dmsg(4, 3, 4, 2), dmsg(5, 6)},
 		{dmsg(6, 20), dmsg(7, 1, 1), dmsg(8, 2)},
 	}
-	setups := []ss.Setup{{Kind: "keyed", Key: key}, {Kind: "keyed", Key: key, PreAB: []ss.Data{ss.Lit([]byte("hi"))}, PreBA: []ss.Data{ss.Lit([]byte("there"))}}}
+	setups := []ss.Setup{{Kind: "keyed", Key: key}, {Kind: "keyed", Key: key, PreAB: []ss.Data{ss.Lit([]byte("hi"))}, PreBA: []ss.Data{ss.Lit([]byte("there"))}, ReadMax: 7, Ctx: true}}
 	apis := []string{"complete", "msgall", "sre"}
 	k := 0
 	try := func(d *desc) {
